@@ -529,3 +529,70 @@ pub fn script(sut: &dyn Sut, parse: &dyn Fn(&str) -> Option<Op>, lines: &[String
     st.samples.push(format!("script: {}", hist.join(", ")));
     st
 }
+
+/// For each (build, probes): run `build` sequentially from the zero buffer, then apply every probe
+/// operation to (a copy of) the state reached — "every shape followed by every single operation".
+pub fn multi_script(sut: &dyn Sut, cases: &[(Vec<Op>, Vec<Op>)], out: &mut dyn Write, limits: &Limits) -> Stats {
+    let mut st = Stats::default();
+    st.exhaustive = true;
+    writeln!(out, "{}", sut.cfg_line()).unwrap();
+    let mut sid = 0usize;
+    for (build, probes) in cases {
+        let mut cur = sut.initial();
+        writeln!(out, "S {} {}", sid, hex(&cur)).unwrap();
+        let mut cur_id = sid;
+        sid += 1;
+        let mut hist: Vec<String> = vec![];
+        let mut ok = true;
+        for op in build {
+            let mut f = vec![];
+            let (o, post) = transition(sut, &cur, op, st.transitions, &mut f);
+            st.transitions += 1;
+            hist.push(op.text());
+            writeln!(out, "S {} {}", sid, hex(&post)).unwrap();
+            writeln!(out, "O {} {} => {} ; {} ; {}", cur_id, op.text(), o.result, sid, o.trace).unwrap();
+            cur_id = sid;
+            sid += 1;
+            for fi in f {
+                if st.findings.len() < limits.max_findings {
+                    st.findings.push((fi, hist.clone()));
+                }
+            }
+            if o.panic.is_some() {
+                ok = false;
+                break;
+            }
+            cur = post;
+        }
+        st.states += 1;
+        if sut.nontrivial(&cur) {
+            st.nontrivial_states += 1;
+        }
+        if !ok {
+            continue;
+        }
+        for op in probes {
+            let mut f = vec![];
+            let (o, post) = transition(sut, &cur, op, st.transitions, &mut f);
+            st.transitions += 1;
+            for c in sut.classify(&cur, op, &o, &post) {
+                st.bump(c);
+            }
+            writeln!(out, "S {} {}", sid, hex(&post)).unwrap();
+            writeln!(out, "O {} {} => {} ; {} ; {}", cur_id, op.text(), o.result, sid, o.trace).unwrap();
+            sid += 1;
+            if st.samples.len() < 3 && st.transitions % 499 == 7 {
+                st.samples.push(format!("shape built by [{}] then {} => {}", hist.join(", "), op.text(), o.result));
+            }
+            for fi in f {
+                if st.findings.len() < limits.max_findings {
+                    let mut h = hist.clone();
+                    h.push(op.text());
+                    st.findings.push((fi, h));
+                }
+            }
+        }
+        st.histories += 1;
+    }
+    st
+}
